@@ -30,7 +30,8 @@ T0 = datetime.datetime(2001, 1, 1, tzinfo=UTC)
 OUTCOMES = ("addSuccess", "addError", "addFailure", "addSkip", "addExpectedFailure", "addUnexpectedSuccess")
 RUNLEVEL = ("startTestRun", "stopTestRun", "stop", "done", "shouldStop")
 NOTAGS = {"n": [], "g": []}
-ACT = {"begin": "local", "item": "local", "acquire": "acquire", "call": "call", "release": "release"}
+ACT = {"begin": "local", "item": "local", "acquire": "acquire", "try_acquire": "try_acquire", "call": "call",
+       "release": "release"}
 INVARIANTS = ("HolderOnly", "Contiguous", "BlockShape", "OnceInOrder", "Released", "FaultsSurface", "EndState")
 
 
@@ -156,13 +157,13 @@ def _worker(sch, t, items, fwd):
             try:
                 if it["kind"] == "test":
                     test = FakeTest(d)
-                    fwd.time(time_of(d + 1))
+                    fwd.time(time_of(it.get("st") or d + 1))
                     if it["gt"]["n"] or it["gt"]["g"]:
                         fwd.tags(set(it["gt"]["n"]), set(it["gt"]["g"]))
                     fwd.startTest(test)
                     if it["xt"]["n"] or it["xt"]["g"]:
                         fwd.tags(set(it["xt"]["n"]), set(it["xt"]["g"]))
-                    fwd.time(time_of(d + 2))
+                    fwd.time(time_of(it.get("en") or d + 2))
                     try:
                         getattr(fwd, it["out"])(test, details={})
                     finally:
@@ -214,6 +215,8 @@ class Execution:
             "f": bool(rec.get("f", False)),
             "holder": self.sem.holder() or 0,
             "ret": rec.get("ret", "none"),
+            "got": bool(rec.get("got", True)),  # non-blocking acquire: was a permit taken
+            "semval": self.sem.value,  # the semaphore's counter after the step
         }
         self.events.append(ev)
 
@@ -244,12 +247,13 @@ def run_scenario(work, faults, chooser):
 # scenarios
 
 
-def T(out="addSuccess", gt=None, xt=None):
-    return {"kind": "test", "out": out, "gt": gt or NOTAGS, "xt": xt or NOTAGS}
+def T(out="addSuccess", gt=None, xt=None, st=0, en=0):
+    """st / en: explicit start / end time from a tiny alphabet (0 = the default unique times id+1 / id+2)."""
+    return {"kind": "test", "out": out, "gt": gt or NOTAGS, "xt": xt or NOTAGS, "st": st, "en": en}
 
 
 def R(kind):
-    return {"kind": kind, "out": "none", "gt": NOTAGS, "xt": NOTAGS}
+    return {"kind": kind, "out": "none", "gt": NOTAGS, "xt": NOTAGS, "st": 0, "en": 0}
 
 
 def add(*x):
@@ -285,7 +289,7 @@ def expected_block(work, t, i):
             g = NOTAGS
     it = work[t - 1][i - 1]
     d = 100 * t + 10 * i
-    out = [("time", d + 1, None), ("startTest", d, None), ("time", d + 2, None)]
+    out = [("time", it.get("st") or d + 1, None), ("startTest", d, None), ("time", it.get("en") or d + 2, None)]
     if any_tags(g):
         out.append(("tags", 0, jdump(g)))
     if any_tags(it["xt"]):
@@ -381,6 +385,13 @@ def systematic_scenarios(tier):
         sc.append(([[slow, fast], [plain]], [(1, k)], 2))
     for k in range(1, 8):
         sc.append(([[tagged, fast, slow]], [(1, k)], 1))
+    # explicit times from a tiny alphabet: back-to-back tests whose start time equals the previous test's end time
+    # (and start = end), with another thread's block in between
+    sc.append(([[T(st=5, en=7), T(st=7, en=9)], [T("addError", st=6, en=8)]], [], 2))
+    sc.append(([[T(st=5, en=7, xt=add("x")), T(st=7, en=7), T(st=7, en=7)], [T(st=7, en=7)]], [], 2))
+    sc.append(([[T(st=5, en=7), T(st=7, en=9)], [R("stop"), T(st=7, en=9)]], [(1, 4)], 2))
+    # shouldStop polled while another thread is inside its block
+    sc.append(([[R("shouldStop"), plain, R("shouldStop")], [tagged, plain]], [], 2))
     sc.append(([[tagged, ungl], [plain, T("addUnexpectedSuccess", add("h"), None)]], [], 2))
     sc.append(([[R("stop"), plain], [T("addExpectedFailure"), R("done")]], [(1, 1)], 2))
     sc.append(([[R("shouldStop"), tagged], [R("stopTestRun"), plain]], [(2, 1), (1, 6)], 2))
@@ -413,6 +424,15 @@ def random_scenario(rng):
             else:
                 items.append(T(rng.choice(OUTCOMES), rng.choice(TAGOPS), rng.choice(TAGOPS)))
         work.append(items)
+    if rng.random() < 0.35:
+        # explicit times from a tiny alphabet: equal consecutive values within a thread and across threads
+        for items in work:
+            cur = rng.randint(1, 3)
+            for it in items:
+                if it["kind"] == "test":
+                    it["st"] = cur
+                    it["en"] = cur + rng.choice((0, 0, 1))
+                    cur = it["en"] + rng.choice((0, 0, 1))
     faults = []
     r = rng.random()
     nf = 0 if r < 0.4 else (1 if r < 0.8 else 2)
@@ -525,7 +545,7 @@ def run(tier, pid="C12"):
     # ---- TLC jobs run in the background (2 at a time, 4 workers each) while the real executions are made ----
     from concurrent.futures import ThreadPoolExecutor
 
-    mc = ["ts_mcQ.cfg", "ts_mcR.cfg"] if quick else ["ts_mcQ.cfg", "ts_mcR.cfg", "ts_mcK.cfg", "ts_mc41.cfg", "ts_mc23.cfg", "ts_mc33.cfg"]
+    mc = ["ts_mcQ.cfg", "ts_mcR.cfg", "ts_mcT.cfg"] if quick else ["ts_mcQ.cfg", "ts_mcR.cfg", "ts_mcT.cfg", "ts_mcK.cfg", "ts_mc41.cfg", "ts_mc23.cfg", "ts_mc33.cfg"]
     exps = ["ts_exp21.cfg", "ts_exp22q.cfg"] if quick else ["ts_exp21.cfg", "ts_exp22.cfg"]
     pool = ThreadPoolExecutor(2)
     jobs = {
